@@ -16,6 +16,7 @@ func init() {
 		e.RWalk()
 		e.RMapOrder(func(m mapRange) bool { return m.fd.Name.Name == "updateImports" })
 		e.RUniqueNames()
+		e.RNameSource()
 		e.RAddsEveryMissing()
 		e.RDeadAppend()
 		e.RAliasFlow()
@@ -29,6 +30,7 @@ func init() {
 		NotCovered:  []string{"byte equality through go/printer", "accuracy of user-supplied resolvers", "re-decoration giving identical Path annotations (depends on the resolver)"},
 	}, func(e *Env) {
 		e.RPureUpdateImports()
+		e.RNameSource()
 		e.RQuietRearrange()
 		e.RPureRestore()
 		e.RDiscovery()
